@@ -44,7 +44,7 @@ pub fn replay() {
         let text = rules::rule_text(&vec["rule"], &t);
         if exp != word { sum.nontrivial += 1; }
         let (w2, t2) = (word.clone(), text.clone());
-        let rec = v::record(5_000_000, true, false, move || {
+        let rec = crate::util::rec(5_000_000, true, false, move || {
             let rules = v::parse_rules(&[RuleGroup::from_rules(vec![t2])])?;
             let steps = v::apply_structural(&rules, w2.clone())?;
             Ok::<_, asca::Error>(steps.last().map(|s| s.word.clone()).unwrap_or(w2))
